@@ -35,17 +35,38 @@ type incSpec struct {
 	// held inside the gated lower-layer call (the fault spec with mode "gate"), the same blob is
 	// uploaded again while its copy is in flight, then the gate is opened.
 	ReuploadAtGate bool `json:"reupload_at_gate,omitempty"`
+	// HoldDst: schedule control — the first HoldDst destination writes of the incarnation wait
+	// at a gate until that many copy workers are inside the destination (so the loop's feeder
+	// runs ahead of its workers, as with any destination that takes time per write); then
+	// the gate is opened.  In an incarnation that ends with CrashNow the gate stays shut until
+	// the crash (a destination that does not answer).
+	HoldDst int `json:"hold_dst,omitempty"`
+	// FullSync: fullSyncOnStart.
+	FullSync bool `json:"full_sync,omitempty"`
 }
 
 type scenario struct {
-	ID      string     `json:"case_id"`
-	Family  string     `json:"family"` // fault | restart | restart-outage | double-restart | multi | designed | race
-	Kind    string     `json:"kind"`
-	Dest    string     `json:"dest"` // memory | index
-	History []int      `json:"history"`
-	Refs    []string   `json:"blobs"`
-	Incs    []incSpec  `json:"incarnations"`
-	blobs   []sto.Blob // not serialised
+	ID      string    `json:"case_id"`
+	Family  string    `json:"family"` // fault | restart | restart-outage | double-restart | multi | designed | race
+	Kind    string    `json:"kind"`
+	Dest    string    `json:"dest"` // memory | index
+	History []int     `json:"history"`
+	Refs    []string  `json:"blobs"`
+	Incs    []incSpec `json:"incarnations"`
+	// Queue: type of the persistent queue ("" = a memory KV that outlives the handlers;
+	// leveldb | kv | sqlite = a file that is closed and re-opened at every restart).
+	Queue string `json:"queue,omitempty"`
+	// Pre-populated state (start-up recovery families): the first PreSrc blobs are in the source
+	// before any handler exists (no queue row, the hub never saw them); of those, every
+	// PreDstEvery-th is at the destination too; DstExtra further blobs are at the destination only.
+	PreSrc      int        `json:"pre_src,omitempty"`
+	PreDstEvery int        `json:"pre_dst_every,omitempty"`
+	DstExtra    int        `json:"dst_extra,omitempty"`
+	NBlobs      int        `json:"n_blobs,omitempty"` // when Refs is abbreviated
+	blobs       []sto.Blob // not serialised
+	hist        []int      // the full history (History is abbreviated in witnesses of big scenarios)
+	extra       []sto.Blob // destination-only blobs
+	big         bool       // holds much memory: stores are emptied when the scenario is over
 }
 
 func clean() incSpec { return incSpec{Uploads: -1, FreezeAt: -1} }
@@ -117,10 +138,33 @@ func seq(n int) []int {
 func (sc *scenario) finish(bl []sto.Blob) *scenario {
 	sc.blobs = bl
 	sc.Refs = nil
-	for _, b := range bl {
+	for i, b := range bl {
+		if i >= 12 {
+			sc.NBlobs = len(bl)
+			break
+		}
 		sc.Refs = append(sc.Refs, fmt.Sprintf("%s(%dB)", b.Ref, len(b.Data)))
 	}
+	sc.hist = sc.History
+	if len(sc.History) > 24 {
+		sc.History = append(sc.History[:24:24], -len(sc.History)) // abbreviated in the witness
+	}
 	return sc
+}
+
+// tinyBlobs returns n distinct small blobs (two hash types, so that validation shards of
+// both are populated).
+func tinyBlobs(tag string, n int) []sto.Blob {
+	out := make([]sto.Blob, 0, n)
+	for i := 0; i < n; i++ {
+		data := []byte(fmt.Sprintf("c19 %s #%d", tag, i))
+		if i%5 == 4 {
+			out = append(out, sto.Blob{Ref: sto.RefOf("sha1", data), Data: data})
+		} else {
+			out = append(out, sto.FromBytes(data))
+		}
+	}
+	return out
 }
 
 // ------------------------------------------------------------------ fault kinds
@@ -381,8 +425,220 @@ func generate(rng *rand.Rand, thorough bool) []*scenario {
 			}, bl)
 		}
 	}
+	// one more gate position for the race family: the copy is held inside the source fetch
+	for _, dest := range dests {
+		bl := blobsFor(rng, dest, 2, tag())
+		add(&scenario{
+			ID: "S/reupload-during-src-fetch/" + dest, Family: "race", Kind: "schedule-reupload-during-src-fetch", Dest: dest, History: seq(2),
+			Incs: []incSpec{{Uploads: -1, FreezeAt: -1, ReuploadAtGate: true,
+				Faults: []faultSpec{{Layer: "src", Op: "Fetch", Mode: "gate", Nth: []int{0}}}}},
+		}, bl)
+	}
+
+	// ---- family "pool": every copier pool size, fault-free, with fewer / as many / more blobs
+	// than workers; once with the blobs already queued at start-up (restart under outage).
+	pools := []int{1, 2}
+	if thorough {
+		pools = []int{1, 2, 3, 4, 5, 8}
+	}
+	for _, pool := range pools {
+		for di, dest := range dests {
+			if !thorough && pool > 1 && di == 1 {
+				continue
+			}
+			for _, m := range []int{1, pool + 2} {
+				if !thorough && m == 1 && pool > 1 {
+					continue
+				}
+				bl := blobsFor(rng, dest, m, tag())
+				add(&scenario{
+					ID: fmt.Sprintf("P/pool%d/%s/m%d", pool, dest, m), Family: "pool", Kind: fmt.Sprintf("copier-pool-%d", pool), Dest: dest, History: seq(m),
+					Incs: []incSpec{{Uploads: -1, FreezeAt: -1, Pool: pool, Burst: dest == "memory" && m > 1}},
+				}, bl)
+			}
+			if thorough || pool == 1 {
+				m := pool + 1
+				bl := blobsFor(rng, dest, m, tag())
+				add(&scenario{
+					ID: fmt.Sprintf("P/pool%d/%s/queued-at-start", pool, dest), Family: "pool", Kind: fmt.Sprintf("copier-pool-%d", pool), Dest: dest, History: seq(m),
+					Incs: []incSpec{
+						{Uploads: -1, FreezeAt: -1, CrashNow: true, Pool: pool, Faults: []faultSpec{{Layer: "dst", Op: "ReceiveBlob", Mode: "error", Nth: seq(40)}}},
+						{Uploads: 0, FreezeAt: -1, Pool: pool},
+					},
+				}, bl)
+			}
+		}
+	}
+
+	// ---- family "size-boundary": blobs at the limits of what the source accepts
+	// (empty, one byte, MaxBlobSize-1, MaxBlobSize), fault-free and across an outage + restart.
+	{
+		variants := []struct {
+			dest    string
+			restart bool
+		}{{"memory", false}}
+		if thorough {
+			variants = append(variants, struct {
+				dest    string
+				restart bool
+			}{"memory", true}, struct {
+				dest    string
+				restart bool
+			}{"index", false})
+		}
+		for _, v := range variants {
+			var bl []sto.Blob
+			for _, n := range []int{maxBlobSize, maxBlobSize - 1, 0, 1} {
+				data := make([]byte, n)
+				rng.Read(data)
+				bl = append(bl, sto.FromBytes(data))
+			}
+			incs := []incSpec{clean()}
+			id := "B/size-boundary/" + v.dest
+			if v.restart {
+				id += "/outage-restart"
+				incs = []incSpec{
+					{Uploads: -1, FreezeAt: -1, CrashNow: true, Faults: []faultSpec{{Layer: "dst", Op: "ReceiveBlob", Mode: "error", Nth: seq(40)}}},
+					clean(),
+				}
+			}
+			sc := &scenario{ID: id, Family: "size-boundary", Kind: "size-boundary", Dest: v.dest, History: seq(len(bl)), Incs: incs, big: true}
+			add(sc, bl)
+		}
+	}
+
+	// ---- family "backlog": more blobs pending than one round of the copy loop takes
+	// (its batch and work buffer hold 1000).  The destination does not answer while the
+	// uploads arrive; crash; the next incarnation finds the whole backlog in the queue, and
+	// its destination holds the first writes until the pool is busy (= takes time per write).
+	{
+		type bv struct {
+			dest    string
+			n       int
+			restart bool
+			queue   string
+		}
+		variants := []bv{{"memory", 1300, true, ""}}
+		if thorough {
+			variants = append(variants, bv{"memory", 2300, true, "leveldb"}, bv{"index", 1100, true, ""}, bv{"memory", 1500, false, ""})
+		}
+		for _, v := range variants {
+			t := tag()
+			bl := tinyBlobs("backlog "+t, v.n)
+			id := fmt.Sprintf("L/backlog%d/%s", v.n, v.dest)
+			var incs []incSpec
+			if v.restart {
+				incs = []incSpec{
+					{Uploads: -1, FreezeAt: -1, Burst: true, CrashNow: true, HoldDst: 8},
+					{Uploads: 0, FreezeAt: -1, HoldDst: 5},
+				}
+			} else {
+				// no restart: the backlog builds up behind a destination that does not answer, then
+				// the destination recovers (the first round of the loop took only the earliest blobs)
+				id += "/no-restart"
+				incs = []incSpec{{Uploads: -1, FreezeAt: -1, Burst: true, HoldDst: 5}}
+			}
+			if v.queue != "" {
+				id += "/" + v.queue
+			}
+			add(&scenario{ID: id, Family: "backlog", Kind: "backlog-over-one-batch", Dest: v.dest, History: seq(v.n), Incs: incs, Queue: v.queue, big: true}, bl)
+		}
+	}
+
+	// ---- family "file-queue": the persistent queue is a real KV file, closed and re-opened at
+	// every restart; rows pending at the crash (destination outage) must be delivered by the next
+	// incarnation from the file alone.
+	{
+		qtypes := []string{"leveldb"}
+		if thorough {
+			qtypes = []string{"leveldb", "kv", "sqlite"}
+		}
+		for qi, q := range qtypes {
+			for di, dest := range dests {
+				if !thorough && di != qi%2 {
+					continue
+				}
+				m := 3
+				ks := []int{-1}
+				if thorough {
+					ks = []int{-1, 1, 3, 6}
+				}
+				for _, k := range ks {
+					bl := blobsFor(rng, dest, m, tag())
+					first := incSpec{Uploads: 2, FreezeAt: int64(k), CrashNow: k < 0,
+						Faults: []faultSpec{{Layer: "dst", Op: "ReceiveBlob", Mode: "error", Nth: seq(40)}}}
+					add(&scenario{
+						ID: fmt.Sprintf("Q/%s/%s/k%d", q, dest, k), Family: "file-queue", Kind: "file-queue-restart-under-dst-outage", Dest: dest, History: seq(m),
+						Incs: []incSpec{first, clean()}, Queue: q,
+					}, bl)
+				}
+			}
+		}
+	}
+
+	// ---- family "startup-recovery": validateOnStart / fullSyncOnStart over a source that holds
+	// blobs the hub never announced, a destination that has some of them and some of its own;
+	// uploads keep arriving.  Everything in the source must reach the destination.
+	{
+		type sv struct {
+			mode        string
+			dest        string
+			pre, ups    int
+			every, xtra int
+			afterCrash  bool
+		}
+		variants := []sv{
+			{"validate", "memory", 700, 3, 2, 150, false},
+			{"validate", "index", 5, 2, 0, 0, false},
+			{"full-sync", "memory", 0, 3, 0, 0, false},
+			{"full-sync", "memory", 6, 3, 2, 2, true},
+			{"full-sync", "index", 5, 2, 0, 0, false},
+		}
+		if thorough {
+			variants = append(variants,
+				sv{"validate", "memory", 2600, 5, 3, 900, true},
+				sv{"validate", "memory", 40, 4, 1, 0, false}, // destination already complete
+				sv{"validate", "index", 5, 3, 0, 0, true},
+				sv{"full-sync", "memory", 1400, 3, 2, 50, false},
+				sv{"full-sync", "index", 5, 3, 0, 0, true},
+			)
+		}
+		for i, v := range variants {
+			t := tag()
+			var bl []sto.Blob
+			if v.dest == "index" {
+				bl = blobsFor(rng, v.dest, v.pre+v.ups, t) // dependency order; the first v.pre are pre-populated
+			} else {
+				bl = append(tinyBlobs("pre "+t, v.pre), blobsFor(rng, v.dest, v.ups, t)...)
+			}
+			hist := make([]int, 0, v.ups)
+			for j := 0; j < v.ups; j++ {
+				hist = append(hist, v.pre+j)
+			}
+			rec := incSpec{Uploads: -1, FreezeAt: -1, Validate: v.mode == "validate", FullSync: v.mode == "full-sync"}
+			incs := []incSpec{rec}
+			if v.afterCrash {
+				// rows are pending from a crashed plain incarnation; the recovering incarnation gets the rest
+				incs = []incSpec{
+					{Uploads: 1, FreezeAt: -1, CrashNow: true, Faults: []faultSpec{{Layer: "dst", Op: "ReceiveBlob", Mode: "error", Nth: seq(40)}}},
+					rec,
+				}
+			}
+			kind := map[string]string{"validate": "validate-on-start", "full-sync": "full-sync-on-start"}[v.mode]
+			sc := &scenario{
+				ID: fmt.Sprintf("V/%s/%s/%d-pre%d", v.mode, v.dest, i, v.pre), Family: "startup-recovery", Kind: kind, Dest: v.dest, History: hist, Incs: incs,
+				PreSrc: v.pre, PreDstEvery: v.every, DstExtra: v.xtra, big: v.pre > 500,
+			}
+			if v.dest == "memory" {
+				sc.extra = tinyBlobs("dst-only "+t, v.xtra)
+			}
+			add(sc, bl)
+		}
+	}
 	return out
 }
+
+const maxBlobSize = 16 << 20 // constants.MaxBlobSize; the size the upload path accepts up to and including
 
 func joinInts(a []int) string {
 	var s []string
